@@ -42,6 +42,7 @@ type PointSpec struct {
 	When   string // before | after
 	Anchor string // e.g. append#1, send#2, return#1, call:Write#3
 	Assert *Clause
+	Assume bool // the clause is an ENVIRONMENT ASSUMPTION (about values other goroutines put on channels this call made): assumed, never proved, listed in the evidence
 	Do     []ast.Stmt
 	DoTxt  string
 }
@@ -349,6 +350,10 @@ func (cs *ContractSet) parseFile(path string, pkgName string) error {
 			k := strings.Index(rest, ": assert ")
 			kind := "assert"
 			if k < 0 {
+				k = strings.Index(rest, ": assume ")
+				kind = "assume"
+			}
+			if k < 0 {
 				k = strings.Index(rest, ": do ")
 				kind = "do"
 			}
@@ -358,12 +363,13 @@ func (cs *ContractSet) parseFile(path string, pkgName string) error {
 			anchor := strings.TrimSpace(rest[:k])
 			body := strings.TrimSpace(rest[k+2+len(kind):])
 			ps := PointSpec{When: word, Anchor: anchor}
-			if kind == "assert" {
+			if kind == "assert" || kind == "assume" {
 				cl, err := mkClause(body)
 				if err != nil {
 					return fail(err)
 				}
 				ps.Assert = &cl
+				ps.Assume = kind == "assume"
 			} else {
 				st, err := parseStmtsText(body)
 				if err != nil {
